@@ -349,3 +349,53 @@ def replay(ctx, path):
     for k, what, _ in part["violations"]:
         print("still fails:", k, "-", what)
     return 1 if part["violations"] else 0
+
+
+def selftest(ctx):
+    import copy
+    from . import c13_trace
+    df = core.import_library()
+    r = ctx.model("MC_C13", "C13_d0.cfg", dump=True, coverage=False)
+    inits = {st["hist"][0]["sc"]: st for st in ctx.dump_states(r)}
+    rnd = random.Random(7)
+    traces = []
+    while len(traces) < 30:
+        t = c13_trace.gen_history(df, rnd, len(traces) + 1, inits, embed.DYADIC[0], 4, avoid_alias=True)
+        if t["ev"]:
+            traces.append(t)
+    _, v0, _ = ctx.trace_check("C13Trace", "C13Trace.cfg", traces)
+    bad = copy.deepcopy(traces)
+    hit = None
+    for t in bad:
+        for e in t["ev"]:
+            if e["outcome"] == "ok":
+                for oid, rec in e["post"]:
+                    if rec["k"] == "region":
+                        rec["lo"][0] = [rec["lo"][0][0] + rec["lo"][0][1], rec["lo"][0][1]]  # +1
+                        hit = t["id"]
+                        break
+            if hit:
+                break
+        if hit:
+            break
+    _, v1, _ = ctx.trace_check("C13Trace", "C13Trace.cfg", bad)
+    res = [("clean histories accepted by C13Trace", len(v0) == 0),
+           ("history with one altered corner rejected by C13Trace", any(v[1] == hit for v in v1))]
+    # spec -> code: alter the expected heap of one depth-1 state
+    r1 = ctx.model("MC_C13", "C13_d1.cfg", dump=True, coverage=False)
+    sts = [s for s in ctx.dump_states(r1) if len(s["hist"]) == 2 and s["hist"][1]["kind"] == "translate" and s["hist"][1]["outcome"] == "ok"]
+    st = sts[0]
+    part = Part()
+    replay_history(df, inits[st["hist"][0]["sc"]], st, embed.DYADIC[0], part)
+    st2 = copy.deepcopy(st)
+    heap = gh.heap_dict(st2["heap"])
+    oid = next(o for o, rec in heap.items() if rec["k"] == "region")
+    rec = dict(heap[oid])
+    rec["lo"] = ((rec["lo"][0][0] + rec["lo"][0][1], rec["lo"][0][1]),) + tuple(rec["lo"][1:])
+    heap[oid] = rec
+    st2["heap"] = heap
+    part2 = Part()
+    replay_history(df, inits[st["hist"][0]["sc"]], st2, embed.DYADIC[0], part2)
+    res += [("dumped history accepted by the replay", not part["violations"]),
+            ("dumped history with one altered expected corner rejected", bool(part2["violations"]))]
+    return res
